@@ -40,6 +40,8 @@ var c32Programs = []c32Prog{
 	{"two-sessions-pipe", []string{"pipe vq; out 1 -> <vq>; !pipe vq", "pipe vr; !pipe vr"}},
 	{"global-typed-reassign", []string{"global path vpp = /a/b; bg { global path vpp = /c/d }; out $vpp; out $vpp"}},
 	{"two-sessions-typed", []string{"global int vti = 1; global int vti = 2", "out $vti; out $vti"}},
+	{"set-while-block-compiles", []string{"a [1..2] -> foreach i { out $i } -> set vz; out $vz"}},
+	{"bg-local", []string{"bg { vla = 1 }; vlb = 2; out $vlb"}},
 }
 
 var c32More = []c32Prog{
@@ -238,8 +240,14 @@ func runC32(c *vlib.Ctx, progs []c32Prog, bound int) {
 	}
 	c.Extra("canary-reported", 1)
 	seen := map[string]bool{}
-	objectLevel(c, seen)
+	only := os.Getenv("VERIF_C32_ONLY")
+	if only == "" {
+		objectLevel(c, seen)
+	}
 	for i, p := range progs {
+		if only != "" && p.name != only {
+			continue
+		}
 		if !c.Mine(uint64(i)) {
 			continue
 		}
